@@ -60,6 +60,12 @@ type World struct {
 	immature   *chainkit.Coin
 	envAbort   bool
 	order      []*txInfo // creation order (deterministic iteration)
+	setupCb    []*btc.Tx // setupCb[i] = coinbase of the setup block at height i+1 (outputs to OP_TRUE)
+	skipList   int       // verify(): probability (percent) of NOT calling GetSortedMempoolRBF, so a dirty list survives
+	gv         *vlib.Rng // verify()'s own stream (does not disturb the operation generator)
+	dirtyRun   int       // number of consecutive verified operations over which the sorted list stayed dirty
+	twins      map[[32]byte][]*txInfo // other serializations (witness) of a known txid: outside Univ2.id_fun, judged on the real code
+	cbTold     map[[32]byte]bool      // setup coinbases already described to the oracle
 
 	conf    map[string]uint64 // confirmedSet's cache
 	confTx  map[string]bool
@@ -87,7 +93,12 @@ func hid(h [32]byte) string { return hex.EncodeToString(h[:]) }
 // client globals and starts a fresh oracle.
 func newWorld(r *vlib.Run, g *vlib.Rng, name string, notFullRBF bool) *World {
 	defer prof("newWorld")()
-	w := &World{r: r, g: g, name: name, txs: map[[32]byte]*txInfo{}, ledger: map[btc.TxPrevOut]*chainkit.Coin{}, keys: map[string]*chainkit.Key{}, notFullRBF: notFullRBF}
+	w := &World{r: r, g: g, name: name, txs: map[[32]byte]*txInfo{}, ledger: map[btc.TxPrevOut]*chainkit.Coin{}, keys: map[string]*chainkit.Key{}, notFullRBF: notFullRBF,
+		twins: map[[32]byte][]*txInfo{}, cbTold: map[[32]byte]bool{}}
+	w.gv = g.Fork()
+	if strings.HasPrefix(name, "random") {
+		w.skipList = 40
+	}
 	opts := &chain.NewChanOpts{
 		BlockMinedCB:  func(bl *btc.Block) { txpool.BlockMined(bl) },  // client/main.go blockMined (fee statistics left out)
 		BlockUndoneCB: func(bl *btc.Block) { txpool.BlockUndone(bl) }, // client/main.go blockUndone
@@ -137,6 +148,7 @@ func newWorld(r *vlib.Run, g *vlib.Rng, name string, notFullRBF bool) *World {
 	var cbs []*btc.Tx
 	for i := 0; i < 108; i++ {
 		cb, _ := k.MustExtend(nil, 0)
+		w.setupCb = append(w.setupCb, cb)
 		if i < 8 {
 			cbs = append(cbs, cb)
 		}
@@ -215,8 +227,8 @@ func b01(b bool) string {
 
 // register sends the tx description to the oracle once.
 func (w *World) register(ti *txInfo) {
-	if ti.sent {
-		return
+	if ti.sent && len(w.twins[ti.tx.Hash.Hash]) == 0 {
+		return // (a txid with several serializations is described again before every use: the latest description counts)
 	}
 	ti.sent = true
 	t := ti.fresh() // sizes as the pool will see them (parsed from the segwit serialization)
@@ -427,7 +439,7 @@ func (w *World) ledgerAt(depth int) map[btc.TxPrevOut]*chainkit.Coin {
 }
 
 // selectValid keeps, in order, the candidates whose inputs are all available in view (updating it).
-func selectValid(view map[btc.TxPrevOut]*chainkit.Coin, cands []*txInfo) (txs []*txInfo, fees uint64) {
+func selectValid(view map[btc.TxPrevOut]*chainkit.Coin, cands []*txInfo, height uint32) (txs []*txInfo, fees uint64) {
 	seen := map[[32]byte]bool{}
 	for _, ti := range cands {
 		if seen[ti.tx.Hash.Hash] || !ti.scriptOK {
@@ -438,7 +450,7 @@ func selectValid(view map[btc.TxPrevOut]*chainkit.Coin, cands []*txInfo) (txs []
 		used := map[btc.TxPrevOut]bool{}
 		for _, i := range ti.tx.TxIn {
 			c := view[i.Input]
-			if c == nil || used[i.Input] {
+			if c == nil || used[i.Input] || c.Coinbase && height-c.Height < chain.COINBASE_MATURITY {
 				ok = false
 				break
 			}
@@ -544,7 +556,7 @@ func (w *World) mine(cands []*txInfo) bool {
 	}
 	w.steps++
 	view := w.ledgerAt(0)
-	txs, fees := selectValid(view, cands)
+	txs, fees := selectValid(view, cands, w.k.Ch.LastBlock().Height+1)
 	for _, ti := range txs {
 		w.register(ti)
 	}
@@ -569,6 +581,41 @@ func (w *World) mine(cands []*txInfo) bool {
 		os.Exit(3)
 	}
 	w.ledgerConnect(txs, height)
+	w.syncTip()
+	w.verify()
+	return true
+}
+
+// undoBare disconnects the last harness block exactly as the text-UI command `undo` does (client/usif/textui
+// undo_block): BlockCommitInProgress(true), Chain.UndoLastBlock (→ BlockUndone), BlockCommitInProgress(false),
+// common.Last. The state after it is a state of the property's quantifier ("undone blocks"): it is verified.
+func (w *World) undoBare() bool {
+	if w.dead || len(w.blocks) == 0 {
+		return false
+	}
+	w.steps++
+	w.mustOK("flag 1")
+	if rep := w.ask(fmt.Sprintf("undo %d %d", w.k.Ch.LastBlock().Height, common.MinFeePerKB())); rep != "ok" {
+		fmt.Fprintln(os.Stderr, "HARNESS-ERROR: oracle undo:", rep)
+		os.Exit(3)
+	}
+	w.mustOK("flag 0")
+	w.confKey = ""
+	pan, hung := w.guarded("UndoLastBlock", func() {
+		txpool.BlockCommitInProgress(true)
+		quiet(func() { w.k.Ch.UndoLastBlock() })
+		txpool.BlockCommitInProgress(false)
+	})
+	w.r.Hit("op:undo-bare")
+	if hung {
+		w.propFail("hang:undo", "undoing a block does not return (BlockUndone holds TxMutex)")
+		return false
+	}
+	if pan != "" {
+		w.propFail("panic:undo", "undoing a block: "+pan)
+		return false
+	}
+	w.ledgerDisconnect()
 	w.syncTip()
 	w.verify()
 	return true
@@ -603,14 +650,14 @@ func (w *World) reorg(depth int, cands []*txInfo) bool {
 			n := len(rest) / 2
 			take, rest = rest[:n], rest[n:]
 		}
-		txs, f := selectValid(view, take)
+		txs, f := selectValid(view, take, node.Height+uint32(i)+1)
 		perBlock = append(perBlock, txs)
 		feesPer = append(feesPer, f)
 	}
 	// oracle: what the chain will do when the last block arrives
 	w.mustOK("flag 1")
 	for i := 0; i < depth; i++ {
-		if rep := w.ask(fmt.Sprintf("undo %d", common.MinFeePerKB())); rep != "ok" {
+		if rep := w.ask(fmt.Sprintf("undo %d %d", w.k.Ch.LastBlock().Height-uint32(i), common.MinFeePerKB())); rep != "ok" {
 			fmt.Fprintln(os.Stderr, "HARNESS-ERROR: oracle undo:", rep)
 			os.Exit(3)
 		}
@@ -951,6 +998,9 @@ func (w *World) verify() {
 
 	// the listing the node would mine / relay from (this also rebuilds the sorted list when it is dirty)
 	dirtyBefore := txpool.SortListDirty
+	// with some probability nobody asks for the listing after this operation: a dirty list then stays dirty over the
+	// next operation(s) (AddToSort / DelFromSort / BlockCommitInProgress on a dirty list), as in a node nobody polls
+	skip := dirtyBefore && w.skipList > 0 && w.gv.Intn(100) < w.skipList
 	var listing []*txpool.OneTxToSend
 	var pan string
 	func() {
@@ -959,17 +1009,33 @@ func (w *World) verify() {
 				pan = fmt.Sprint(x)
 			}
 		}()
-		listing = txpool.GetSortedMempoolRBF()
+		if skip {
+			listing = txpool.GetSortedMempool() // GetSortedMempoolSlow: does not rebuild the list
+		} else {
+			listing = txpool.GetSortedMempoolRBF()
+		}
 	}()
 	if pan != "" {
-		w.propFail("panic:listing", "GetSortedMempoolRBF panics: "+pan)
+		w.propFail("panic:listing", "GetSortedMempoolRBF / GetSortedMempool panics: "+pan)
 		return
 	}
 	md0 := parseDump(w.ask("dump"))
 	if (md0["L"] == "dirty") != dirtyBefore {
 		w.tieFail("model-mismatch:dirty", fmt.Sprintf("SortListDirty: gocoin %v, model dirty=%v", dirtyBefore, md0["L"] == "dirty"))
 	}
-	w.mustOK("resort")
+	if skip {
+		w.dirtyRun++
+		w.r.Hit("verify:list-left-dirty")
+		if w.dirtyRun >= 2 {
+			w.r.Hit("verify:list-dirty-over-2+-ops")
+		}
+		if !txpool.SortListDirty {
+			w.propFail("dirty-cleared", "GetSortedMempool() on a dirty list cleared SortListDirty without rebuilding")
+		}
+	} else {
+		w.dirtyRun = 0
+		w.mustOK("resort")
+	}
 	rd := realDump(false)
 	md := parseDump(w.ask("dump"))
 
@@ -1025,7 +1091,20 @@ func (w *World) verify() {
 	}
 
 	// ---- GetSortedMempoolRBF: the model merges its sorted list with the observed (validated) FeePackages
-	if agree && !txpool.FeePackagesDirty {
+	if agree && skip && !feeTies() {
+		// dirty list: GetSortedMempool() = GetSortedMempoolSlow() against the model's (rbf 0 = its listing without packages)
+		rep := w.ask("rbf 0")
+		var ll []string
+		for _, t := range listing {
+			ll = append(ll, btc.BIdxString(t.Hash.BIdx()))
+		}
+		if real := strings.Join(ll, " "); rep != real {
+			w.tieFail("model-mismatch:slow-listing", "GetSortedMempoolSlow differs from the model's "+firstDiff(real, rep))
+		} else {
+			w.r.TieOK()
+		}
+	}
+	if agree && !skip && !txpool.FeePackagesDirty {
 		var sb strings.Builder
 		fmt.Fprintf(&sb, "rbf %d", len(txpool.FeePackages))
 		npk := 0
@@ -1057,7 +1136,7 @@ func (w *World) verify() {
 	}
 
 	// ---- the property itself, on the real pool
-	w.checkProperty(listing)
+	w.checkProperty(listing, !skip)
 	w.r.Eval("state:"+bucket(len(txpool.TransactionsToSend))+"-txs", rd["P"]+"#"+rd["R"])
 }
 
@@ -1084,7 +1163,7 @@ func (w *World) confirmedSet() (map[string]uint64, map[string]bool) {
 }
 
 // checkProperty evaluates C12's predicate on the real pool (TxMutex locked).
-func (w *World) checkProperty(listing []*txpool.OneTxToSend) {
+func (w *World) checkProperty(listing []*txpool.OneTxToSend, fromRBF bool) {
 	defer prof("verify.checkProperty")()
 	// the node's confirmed unspent set, from the UTXO db itself
 	conf, confTx := w.confirmedSet()
@@ -1144,6 +1223,12 @@ func (w *World) checkProperty(listing []*txpool.OneTxToSend) {
 		// sizes: recompute from the raw bytes
 		if ti := w.txs[t.Hash.Hash]; ti != nil {
 			ref := ti.fresh()
+			for _, tw := range w.twins[t.Hash.Hash] { // several serializations of this txid are around: the pooled one counts
+				if bytes.Equal(tw.raw, t.Raw) {
+					ref = tw.fresh()
+					w.r.Hit("pooled:witness-twin")
+				}
+			}
 			if ref.Weight() != t.Weight() || ref.VSize() != t.VSize() || ref.Size != t.Size || !bytes.Equal(ref.Raw, t.Raw) {
 				w.propFail("size-mismatch", fmt.Sprintf("recorded size/weight of %s differs from its serialization: weight %d/%d vsize %d/%d size %d/%d nws %d/%d rawlen %d/%d", t.Hash.String(), t.Weight(), ref.Weight(), t.VSize(), ref.VSize(), t.Size, ref.Size, t.NoWitSize, ref.NoWitSize, len(t.Raw), len(ref.Raw)))
 			}
@@ -1165,7 +1250,9 @@ func (w *World) checkProperty(listing []*txpool.OneTxToSend) {
 		w.propFail("mempoolcheck", "txpool.MempoolCheck() reports inconsistencies")
 	}
 	// both listings: a permutation of the pool with parents first
-	w.checkParentsFirst("listing", "GetSortedMempoolRBF", listing, len(pool))
+	if fromRBF {
+		w.checkParentsFirst("listing", "GetSortedMempoolRBF", listing, len(pool))
+	}
 	var sorted []*txpool.OneTxToSend
 	var span string
 	func() {
@@ -1224,11 +1311,16 @@ func (w *World) checkTemplate(listing []*txpool.OneTxToSend) {
 		if weight+uint64(t.Weight()) > 3990000 || sigops+t.SigopsCost > btc.MAX_BLOCK_SIGOPS_COST {
 			break
 		}
-		ti := w.txs[t.Hash.Hash]
-		if ti == nil {
+		if w.txs[t.Hash.Hash] == nil {
 			return
 		}
-		txs = append(txs, ti.fresh())
+		tx, n := btc.NewTx(t.Raw) // the record's own bytes, as the node would put them into a block
+		if tx == nil || n != len(t.Raw) {
+			w.propFail("pooled-raw", "the raw bytes kept for pooled tx "+t.Hash.String()+" do not parse")
+			return
+		}
+		tx.SetHash(t.Raw)
+		txs = append(txs, tx)
 		fees += t.Fee
 		weight += uint64(t.Weight())
 		sigops += t.SigopsCost
